@@ -1,13 +1,18 @@
 (* C13 — typed columns survive write-then-read through JSON with value and type intact.
    A generic theorem reduces the round trip of a one-column row (CreateRow -> MarshalJSON ->
    CreateRowEmpty -> UnmarshalJSON, through the text layer of JL.std.GoJson) to four facts about
-   the column's conversions; the instances discharge them from the cast theorems (C10-C12). *)
+   the column's conversions ([column_ok]; [column_ok_upto] when the value read back may differ from
+   the value written); the instances [ok_<format>_<type>] discharge them from the cast theorems
+   (C09-C12, C14) and from base64_decode_encode (Base64Proofs.v), one per pairing of the lossless
+   table (DESIGN.md section 8); [proved_pairing] / [proved_pairing_upto] collect them, with the domain
+   and the named hypotheses (GoHyps.v, GoHypsJson.v) of each as premises of the constructor. *)
 From Coq Require Import ZArith List Bool Lia.
 From JL.std Require Import GoBase GoFloat GoStrconv GoTime GoVal GoBase64 GoJsonNum GoJson.
 From JL.gen Require Import CastGen ConvGen.
 From JL.model Require Import CastRun Row RowRun Template TemplateJson.
-From JL.proofs Require Import CastTotal CastBinary CastInt CastText StrconvProofs RowProofs RowSafe TemplateOrder TemplateClass
-  JsonNumber JsonWrite JsonProofs.
+From JL.std Require Import GoHyps GoHypsJson.
+From JL.proofs Require Import CastTactics CastTotal CastBinary CastInt CastText StrconvProofs RowProofs RowSafe TemplateOrder TemplateClass
+  JsonNumber JsonWrite JsonProofs Base64Proofs TimeCalendar TimeProofs.
 Import ListNotations.
 Open Scope Z_scope.
 
@@ -39,19 +44,20 @@ Section Lossless.
     unfold clone_value. cbn [cell_raw bind cell_format cell_rawtype]. rewrite new_value_nil. reflexivity.
   Qed.
 
-  (* the generic round trip of one column *)
-  Theorem lossless_column n c f T v e leaf txt :
+  (* the generic round trip of one column; [v'] is the value the reader stores (it is [v] itself for
+     the pairings that are lossless on the nose, [v] at one-second resolution for time.Time) *)
+  Theorem lossless_column_upto n c f T v v' e leaf txt :
     ustr c -> v <> VNil -> format_eqb f FHidden = false ->
     To O T v = Ok v ->                                              (* the value is of the column's raw type *)
     export_scalar O f (RS v) = Ok (RS e) ->                         (* Export of the column *)
     marshal_gval encode_string jfloat jother e = Ok txt ->          (* json.Marshal of the exported value *)
     write_jv leaf = Some txt -> jv_wf leaf ->                       (* ... is the text of the JSON value [leaf] *)
     rv_is_nil (rv_of_jv leaf) = false ->
-    import_scalar O f T (rv_of_jv leaf) = Ok (RS v) ->              (* Import of what the reader hands back *)
+    import_scalar O f T (rv_of_jv leaf) = Ok (RS v') ->             (* Import of what the reader hands back *)
     exists line,
       let t := tpl1 c f T in
       bind (create_row O parse_top_rv (S (S (S n))) t (RMap [(c, RS v)])) (marshal_row' (S (S (S n)))) = Ok line
-      /\ get_row O parse_top_rv (S (S (S n))) t line = Ok (MkRow [(c, CVal (RS v) f T)] [c]).
+      /\ get_row O parse_top_rv (S (S (S n))) t line = Ok (MkRow [(c, CVal (RS v') f T)] [c]).
   Proof.
     intros Hc Hv Hvis Hcast Hexp Hm Hw Hwf Hnn Himp.
     exists ([123] ++ (encode_string c ++ [58] ++ txt) ++ [125]). cbv zeta. split.
@@ -78,6 +84,66 @@ Section Lossless.
            - destruct leaf; cbn in El; try discriminate. 
            - rewrite Himp. cbn. unfold set_cell. cbn [aset]. rewrite str_eqb_refl. reflexivity. }
       all: rewrite Himp; cbn; unfold set_cell; cbn [aset]; rewrite str_eqb_refl; reflexivity.
+  Qed.
+
+  Theorem lossless_column n c f T v e leaf txt :
+    ustr c -> v <> VNil -> format_eqb f FHidden = false ->
+    To O T v = Ok v ->                                              (* the value is of the column's raw type *)
+    export_scalar O f (RS v) = Ok (RS e) ->                         (* Export of the column *)
+    marshal_gval encode_string jfloat jother e = Ok txt ->          (* json.Marshal of the exported value *)
+    write_jv leaf = Some txt -> jv_wf leaf ->                       (* ... is the text of the JSON value [leaf] *)
+    rv_is_nil (rv_of_jv leaf) = false ->
+    import_scalar O f T (rv_of_jv leaf) = Ok (RS v) ->              (* Import of what the reader hands back *)
+    exists line,
+      let t := tpl1 c f T in
+      bind (create_row O parse_top_rv (S (S (S n))) t (RMap [(c, RS v)])) (marshal_row' (S (S (S n)))) = Ok line
+      /\ get_row O parse_top_rv (S (S (S n))) t line = Ok (MkRow [(c, CVal (RS v) f T)] [c]).
+  Proof. apply lossless_column_upto. Qed.
+
+  (* C05 for one column, read-back value [v'] possibly different from [v]: when [v'] is itself of the
+     raw type and exports to the same value [e], the line written for [v] is a fixed point *)
+  Theorem fixed_point_column_upto n c f T v v' e leaf txt :
+    ustr c -> v <> VNil -> v' <> VNil -> format_eqb f FHidden = false ->
+    To O T v = Ok v -> To O T v' = Ok v' ->
+    export_scalar O f (RS v) = Ok (RS e) -> export_scalar O f (RS v') = Ok (RS e) ->
+    marshal_gval encode_string jfloat jother e = Ok txt ->
+    write_jv leaf = Some txt -> jv_wf leaf ->
+    rv_is_nil (rv_of_jv leaf) = false ->
+    import_scalar O f T (rv_of_jv leaf) = Ok (RS v') ->
+    exists line,
+      let t := tpl1 c f T in
+      bind (create_row O parse_top_rv (S (S (S n))) t (RMap [(c, RS v)])) (marshal_row' (S (S (S n)))) = Ok line
+      /\ pipeline O encode_string parse_top_rv jfloat jother (S (S (S n))) t t line = Ok (line ++ [10]).
+  Proof.
+    intros Hc Hv Hv' Hvis Hcast Hcast' Hexp Hexp' Hm Hw Hwf Hnn Himp.
+    destruct (lossless_column_upto n c f T v v' e leaf txt Hc Hv Hvis Hcast Hexp Hm Hw Hwf Hnn Himp) as [line [H1 H2]].
+    exists line. cbv zeta in *. split; [exact H1|].
+    unfold pipeline. rewrite H2. cbn [bind]. unfold export_bytes.
+    assert (Ec : cast_to O T (RS v) = Ok (RS v)) by (unfold cast_to; cbn [to_gval]; now rewrite Hcast).
+    assert (Ec' : cast_to O T (RS v') = Ok (RS v')) by (unfold cast_to; cbn [to_gval]; now rewrite Hcast').
+    assert (Hre : create_row O parse_top_rv (S (S (S n))) (tpl1 c f T) (RV (CRow (MkRow [(c, CVal (RS v') f T)] [c])))
+                  = Ok (MkRow [(c, CVal (RS v') f T)] [c])).
+    { unfold create_row. rewrite clone_tpl1. cbn [bind]. rewrite tpl1_eq.
+      cbn [create_from_row alookup]. rewrite str_eqb_refl. cbn [cell_raw bind].
+      unfold get_value. cbn [row_m alookup]. rewrite str_eqb_refl.
+      unfold fill_cell. cbn [cell_rawtype cell_format]. rewrite Ec'. unfold new_value. rewrite Ec'. cbn [bind].
+      rewrite set_value_store. unfold store, push_if_absent, set_cell, ahas.
+      cbn [alookup aset]. rewrite str_eqb_refl. cbn [aset]. rewrite str_eqb_refl. reflexivity. }
+    rewrite Hre. cbn [bind].
+    assert (Hcr : create_row O parse_top_rv (S (S (S n))) (tpl1 c f T) (RMap [(c, RS v)]) = Ok (MkRow [(c, CVal (RS v) f T)] [c])).
+    { unfold create_row. rewrite clone_tpl1. cbn [bind]. rewrite tpl1_eq.
+      cbn [create_from_map]. unfold get_value. cbn [row_m alookup]. rewrite str_eqb_refl.
+      unfold fill_cell. cbn [cell_rawtype cell_format]. rewrite Ec. unfold new_value. rewrite Ec. cbn [bind].
+      rewrite set_value_store. unfold store, push_if_absent, set_cell, ahas.
+      cbn [alookup aset]. rewrite str_eqb_refl. cbn [aset]. rewrite str_eqb_refl. reflexivity. }
+    rewrite Hcr in H1. cbn [bind] in H1.
+    (* both rows marshal to the same line: the cells export to the same value *)
+    rewrite marshal_row_S in H1 |- *. cbn [marshal_row_members alookup] in H1 |- *. rewrite str_eqb_refl in H1 |- *.
+    cbn [cell_format] in H1 |- *. rewrite Hvis in H1 |- *.
+    rewrite marshal_cell_S in H1 |- *.
+    assert (En : rv_is_nil (RS v) = false) by (destruct v; auto; contradiction).
+    assert (En' : rv_is_nil (RS v') = false) by (destruct v'; auto; contradiction).
+    rewrite En, Hexp in H1. rewrite En', Hexp'. rewrite H1. reflexivity.
   Qed.
 
   (* C05 for one column: the line written for a value is a fixed point of the column's own template *)
@@ -215,16 +281,820 @@ Section Lossless.
     intros Hc. unfold column_ok. repeat split; try assumption; try discriminate; try (destruct b; reflexivity). constructor.
   Qed.
 
-  (* the lossless pairings proved so far: (format, raw type, value) with the witnesses of the four facts *)
+  (* ---------- timestamp: the integer kinds (every value that fits int64) ---------- *)
+  Lemma ToTimestamp_int k z : in_range k z -> in_range KInt64 z -> ToTimestamp O (VInt k z) = Ok (VInt KInt64 z).
+  Proof.
+    intros Hr H64. destruct k; try reflexivity; exact (proj1 (ToInt_int_src O KInt64 _ z Hr) H64).
+  Qed.
+
+  Lemma ok_timestamp_int c k z : ustr c -> in_range k z -> in_range KInt64 z ->
+    column_ok c FTimestamp (sample k) (VInt k z) (VInt KInt64 z) (JNum (dec z)) (dec z).
+  Proof.
+    intros Hc Hr H64. unfold column_ok. repeat split; try assumption; try discriminate.
+    - now apply int_self.
+    - cbn [export_scalar to_gval]. unfold exportToTimestamp, exportToTimestamp_5, exportToTimestamp_body.
+      now rewrite (ToTimestamp_int k z Hr H64).
+    - cbn. apply marshal_dec.
+    - constructor. apply jnumber_dec.
+    - cbn [rv_of_jv import_scalar to_gval]. pose proof (proj2 (int_text_roundtrip O k z Hr)) as E.
+      unfold importFromTimestamp, sample in *. cbv beta iota zeta. rewrite E. reflexivity.
+  Qed.
+
+  (* the eight integer kinds whose every value fits int64 *)
+  Definition fits_int64 (k : ikind) : bool :=
+    match k with KUint | KUint64 => false | _ => true end.
+
+  Lemma fits_int64_range k z : fits_int64 k = true -> in_range k z -> in_range KInt64 z.
+  Proof.
+    intros Hk Hr. destruct k; try discriminate Hk; unfold in_range, imin, imax in *; cbn [isigned ibits isize] in *;
+      repeat match goal with H : context [2 ^ ?n] |- _ => let v := eval compute in (2 ^ n) in change (2 ^ n) with v in H end;
+      repeat match goal with |- context [2 ^ ?n] => let v := eval compute in (2 ^ n) in change (2 ^ n) with v end; lia.
+  Qed.
+
+  (* ---------- bool under string and auto ---------- *)
+  Lemma FormatBool_ascii b : Forall (fun c => 0 <= c < 128) (FormatBool b).
+  Proof. destruct b; cbv [FormatBool]; repeat constructor; lia. Qed.
+
+  Lemma ok_string_bool c b : ustr c ->
+    column_ok c FString (VBool true) (VBool b) (VStr (FormatBool b)) (JStr (FormatBool b)) (encode_string (FormatBool b)).
+  Proof.
+    intros Hc. unfold column_ok. repeat split; try assumption; try discriminate; try (destruct b; reflexivity).
+    constructor. apply ascii_ustr, FormatBool_ascii.
+  Qed.
+
+  Lemma ok_auto_bool c b : ustr c ->
+    column_ok c FAuto (VBool true) (VBool b) (VBool b) (JBool b) (if b then s_true else s_false).
+  Proof.
+    intros Hc. unfold column_ok. repeat split; try assumption; try discriminate; try (destruct b; reflexivity). constructor.
+  Qed.
+
+  (* ---------- binary: base64 of the little-endian / raw bytes ---------- *)
+  Lemma ok_binary_gen c T v l :
+    ustr c -> v <> VNil -> T <> VNil -> bytes_ok l ->
+    To O T v = Ok v ->
+    ToBinary O v = Ok (VBytes (mkbytes l)) ->
+    To O T (VBytes (mkbytes l)) = Ok v ->
+    column_ok c FBinary T v (VStr (base64_encode l)) (JStr (base64_encode l)) (encode_string (base64_encode l)).
+  Proof.
+    intros Hc Hv HT Hl Hself Henc Hdec. unfold column_ok. repeat split; try assumption; try discriminate.
+    - cbn [export_scalar to_gval]. unfold exportToBinary, exportToBinary_5, exportToBinary_body.
+      rewrite Henc. reflexivity.
+    - constructor. apply ascii_ustr, base64_encode_ascii, Hl.
+    - cbn [rv_of_jv import_scalar to_gval]. unfold importFromBinary.
+      change (ToString O (VStr (base64_encode l))) with (Ok (VStr (base64_encode l)) : res gval).
+      cbn [as_string]. rewrite (base64_decode_encode l Hl). cbn [option_map].
+      destruct T; try (contradiction HT; reflexivity); rewrite Hdec; reflexivity.
+  Qed.
+
+  Definition int_le_bytes (k : ikind) (z : Z) : str := le_bytes (size_nat k) (z mod 2 ^ ibits k).
+
+  Lemma ok_binary_int c k z : ustr c -> in_range k z ->
+    column_ok c FBinary (sample k) (VInt k z) (VStr (base64_encode (int_le_bytes k z)))
+              (JStr (base64_encode (int_le_bytes k z))) (encode_string (base64_encode (int_le_bytes k z))).
+  Proof.
+    intros Hc Hr. apply ok_binary_gen; try assumption; try discriminate.
+    - apply le_bytes_ok.
+    - now apply int_self.
+    - now apply encode_le.
+    - pose proof (decode_encode O k z Hr) as E. rewrite (encode_le O k z Hr) in E. exact E.
+  Qed.
+
+  Lemma ok_binary_f64 c x : ustr c -> 0 <= x < 2 ^ 64 ->
+    column_ok c FBinary (VF64 0) (VF64 x) (VStr (base64_encode (le_bytes 8 x)))
+              (JStr (base64_encode (le_bytes 8 x))) (encode_string (base64_encode (le_bytes 8 x))).
+  Proof.
+    intros Hc Hx. apply ok_binary_gen; try assumption; try discriminate.
+    - apply le_bytes_ok.
+    - reflexivity.
+    - apply f64_encode.
+    - pose proof (f64_roundtrip O x Hx) as E. rewrite f64_encode in E. exact E.
+  Qed.
+
+  Lemma ok_binary_f32 c x : ustr c -> 0 <= x < 2 ^ 32 ->
+    column_ok c FBinary (VF32 0) (VF32 x) (VStr (base64_encode (le_bytes 4 x)))
+              (JStr (base64_encode (le_bytes 4 x))) (encode_string (base64_encode (le_bytes 4 x))).
+  Proof.
+    intros Hc Hx. apply ok_binary_gen; try assumption; try discriminate.
+    - apply le_bytes_ok.
+    - reflexivity.
+    - apply f32_encode.
+    - pose proof (f32_roundtrip O x Hx) as E. rewrite f32_encode in E. exact E.
+  Qed.
+
+  Lemma ok_binary_bool c b : ustr c ->
+    column_ok c FBinary (VBool true) (VBool b) (VStr (base64_encode [if b then 1 else 0]))
+              (JStr (base64_encode [if b then 1 else 0])) (encode_string (base64_encode [if b then 1 else 0])).
+  Proof.
+    intros Hc. apply ok_binary_gen; try assumption; try discriminate.
+    - destruct b; repeat constructor; unfold is_byte; lia.
+    - reflexivity.
+    - apply bool_encode.
+    - rewrite bool_decode. destruct b; reflexivity.
+  Qed.
+
+  (* a Go string / json.Number / non-nil []byte holding any bytes *)
+  Lemma ok_binary_string c t0 s : ustr c -> bytes_ok s ->
+    column_ok c FBinary (VStr t0) (VStr s) (VStr (base64_encode s)) (JStr (base64_encode s)) (encode_string (base64_encode s)).
+  Proof. intros Hc Hs. apply ok_binary_gen; try assumption; try discriminate; reflexivity. Qed.
+
+  Lemma ok_binary_number c t0 s : ustr c -> bytes_ok s ->
+    column_ok c FBinary (VNum t0) (VNum s) (VStr (base64_encode s)) (JStr (base64_encode s)) (encode_string (base64_encode s)).
+  Proof. intros Hc Hs. apply ok_binary_gen; try assumption; try discriminate; reflexivity. Qed.
+
+  Lemma ok_binary_bytes c b0 s : ustr c -> bytes_ok s ->
+    column_ok c FBinary (VBytes b0) (VBytes (mkbytes s)) (VStr (base64_encode s)) (JStr (base64_encode s)) (encode_string (base64_encode s)).
+  Proof. intros Hc Hs. apply ok_binary_gen; try assumption; try discriminate; reflexivity. Qed.
+
+  (* ---------- string and json.Number raw types ---------- *)
+  Lemma ok_string_string c t0 s : ustr c -> ustr s ->
+    column_ok c FString (VStr t0) (VStr s) (VStr s) (JStr s) (encode_string s).
+  Proof.
+    intros Hc Hs. unfold column_ok. repeat split; try assumption; try discriminate. constructor; exact Hs.
+  Qed.
+
+  Lemma ok_auto_string c t0 s : ustr c -> ustr s ->
+    column_ok c FAuto (VStr t0) (VStr s) (VStr s) (JStr s) (encode_string s).
+  Proof.
+    intros Hc Hs. unfold column_ok. repeat split; try assumption; try discriminate. constructor; exact Hs.
+  Qed.
+
+  Lemma ok_string_number c t0 s : ustr c -> ustr s ->
+    column_ok c FString (VNum t0) (VNum s) (VStr s) (JStr s) (encode_string s).
+  Proof.
+    intros Hc Hs. unfold column_ok. repeat split; try assumption; try discriminate. constructor; exact Hs.
+  Qed.
+
+  Lemma ok_numeric_number c t0 lit : ustr c -> jnumber lit ->
+    column_ok c FNumeric (VNum t0) (VNum lit) (VNum lit) (JNum lit) lit.
+  Proof.
+    intros Hc Hl. unfold column_ok. repeat split; try assumption; try discriminate.
+    - cbn. now rewrite jnumber_marshal.
+    - cbn. now apply jnumber_marshal.
+    - constructor; exact Hl.
+  Qed.
+
+  Lemma ok_auto_number c t0 lit : ustr c -> jnumber lit ->
+    column_ok c FAuto (VNum t0) (VNum lit) (VNum lit) (JNum lit) lit.
+  Proof.
+    intros Hc Hl. unfold column_ok. repeat split; try assumption; try discriminate.
+    - cbn. now rewrite jnumber_marshal.
+    - cbn. now apply jnumber_marshal.
+    - constructor; exact Hl.
+  Qed.
+
+  (* ---------- floats under numeric and string: strconv's digits (hypotheses of C12) ---------- *)
+  Lemma jnumber_ascii lit : jnumber lit -> Forall (fun c => 0 <= c < 128) lit.
+  Proof.
+    intros H. eapply Forall_impl; [|apply jnumber_chars; exact H].
+    intros c Hc. unfold r_numchar in Hc.
+    repeat match type of Hc with
+           | (_ || _) = true => apply orb_true_iff in Hc; destruct Hc as [Hc|Hc]
+           | (_ && _) = true => apply andb_true_iff in Hc; destruct Hc as [Hc Hc2]
+           end; lia.
+  Qed.
+
+  Definition f64_txt (x : Z) : str := FormatFloat O x 102 (-1) 64.
+  Definition f32_txt (x : Z) : str := FormatFloat O (f64_of_f32 x) 102 (-1) 32.
+
+  Lemma f64_txt_number x : H_float_syn O -> f64_class x = FFin -> jnumber (f64_txt x).
+  Proof.
+    intros [Hsyn _] Hc. apply is_json_number_iff. pose proof (Hsyn x Hc) as Hp.
+    unfold plain_decimal in Hp. apply andb_true_iff in Hp. exact (proj1 Hp).
+  Qed.
+
+  Lemma f32_txt_number x : H_float_syn O -> f32_class x = FFin -> jnumber (f32_txt x).
+  Proof.
+    intros [_ Hsyn] Hc. apply is_json_number_iff. pose proof (Hsyn x Hc) as Hp.
+    unfold plain_decimal in Hp. apply andb_true_iff in Hp. exact (proj1 Hp).
+  Qed.
+
+  Lemma f64_txt_read x : H_float_rt O -> 0 <= x < 2 ^ 64 -> f64_class x = FFin ->
+    To O (VF64 0) (VStr (f64_txt x)) = Ok (VF64 x) /\ To O (VF64 0) (VNum (f64_txt x)) = Ok (VF64 x).
+  Proof.
+    intros [Hrt _] Hx Hc. destruct (f64_read O (f64_txt x)) as [R1 R2]. rewrite R2, R1.
+    unfold f64_txt. rewrite (Hrt x Hx Hc). split; reflexivity.
+  Qed.
+
+  Lemma f32_txt_read x : H_float_rt O -> H_f32_embed -> 0 <= x < 2 ^ 32 -> f32_class x = FFin ->
+    To O (VF32 0) (VStr (f32_txt x)) = Ok (VF32 x) /\ To O (VF32 0) (VNum (f32_txt x)) = Ok (VF32 x).
+  Proof.
+    intros [_ Hrt] Hemb Hx Hc. destruct (f32_read O (f32_txt x)) as [R1 R2]. rewrite R2, R1.
+    unfold f32_txt. rewrite (Hrt x Hx Hc), (Hemb x Hx Hc). split; reflexivity.
+  Qed.
+
+  Lemma ok_numeric_f64 c x : H_float_rt O -> H_float_syn O -> ustr c -> 0 <= x < 2 ^ 64 -> f64_class x = FFin ->
+    column_ok c FNumeric (VF64 0) (VF64 x) (VNum (f64_txt x)) (JNum (f64_txt x)) (f64_txt x).
+  Proof.
+    intros Hrt Hsyn Hc Hx Hfin. pose proof (f64_txt_number x Hsyn Hfin) as Hj.
+    unfold column_ok. repeat split; try assumption; try discriminate.
+    - cbn. now rewrite jnumber_marshal.
+    - cbn. now apply jnumber_marshal.
+    - constructor; exact Hj.
+    - cbn [rv_of_jv import_scalar to_gval]. unfold importFromNumeric.
+      rewrite (proj2 (f64_txt_read x Hrt Hx Hfin)). reflexivity.
+  Qed.
+
+  Lemma ok_string_f64 c x : H_float_rt O -> H_float_syn O -> ustr c -> 0 <= x < 2 ^ 64 -> f64_class x = FFin ->
+    column_ok c FString (VF64 0) (VF64 x) (VStr (f64_txt x)) (JStr (f64_txt x)) (encode_string (f64_txt x)).
+  Proof.
+    intros Hrt Hsyn Hc Hx Hfin. pose proof (f64_txt_number x Hsyn Hfin) as Hj.
+    unfold column_ok. repeat split; try assumption; try discriminate.
+    - constructor. apply ascii_ustr, jnumber_ascii, Hj.
+    - cbn [rv_of_jv import_scalar to_gval]. unfold importFromString.
+      rewrite (proj1 (f64_txt_read x Hrt Hx Hfin)). reflexivity.
+  Qed.
+
+  Lemma ok_numeric_f32 c x : H_float_rt O -> H_float_syn O -> H_f32_embed -> ustr c -> 0 <= x < 2 ^ 32 -> f32_class x = FFin ->
+    column_ok c FNumeric (VF32 0) (VF32 x) (VNum (f32_txt x)) (JNum (f32_txt x)) (f32_txt x).
+  Proof.
+    intros Hrt Hsyn Hemb Hc Hx Hfin. pose proof (f32_txt_number x Hsyn Hfin) as Hj.
+    unfold column_ok. repeat split; try assumption; try discriminate.
+    - cbn. now rewrite jnumber_marshal.
+    - cbn. now apply jnumber_marshal.
+    - constructor; exact Hj.
+    - cbn [rv_of_jv import_scalar to_gval]. unfold importFromNumeric.
+      rewrite (proj2 (f32_txt_read x Hrt Hemb Hx Hfin)). reflexivity.
+  Qed.
+
+  Lemma ok_string_f32 c x : H_float_rt O -> H_float_syn O -> H_f32_embed -> ustr c -> 0 <= x < 2 ^ 32 -> f32_class x = FFin ->
+    column_ok c FString (VF32 0) (VF32 x) (VStr (f32_txt x)) (JStr (f32_txt x)) (encode_string (f32_txt x)).
+  Proof.
+    intros Hrt Hsyn Hemb Hc Hx Hfin. pose proof (f32_txt_number x Hsyn Hfin) as Hj.
+    unfold column_ok. repeat split; try assumption; try discriminate.
+    - constructor. apply ascii_ustr, jnumber_ascii, Hj.
+    - cbn [rv_of_jv import_scalar to_gval]. unfold importFromString.
+      rewrite (proj1 (f32_txt_read x Hrt Hemb Hx Hfin)). reflexivity.
+  Qed.
+
+  (* ---------- floats under auto: the text is json.Marshal's (the oracle jfloat) ---------- *)
+  Lemma ok_auto_f64 c x t : ustr c -> jfloat false x = Some t -> jnumber t -> ParseFloat O t 64 = Some x ->
+    column_ok c FAuto (VF64 0) (VF64 x) (VF64 x) (JNum t) t.
+  Proof.
+    intros Hc Hj Hn Hp. unfold column_ok. repeat split; try assumption; try discriminate.
+    - cbn. now rewrite Hj.
+    - cbn. now apply jnumber_marshal.
+    - constructor; exact Hn.
+    - cbn [rv_of_jv import_scalar]. unfold cast_to. cbn [to_gval].
+      destruct (f64_read O t) as [R1 R2]. rewrite R2, R1, Hp. reflexivity.
+  Qed.
+
+  Lemma ok_auto_f32 c x t w : ustr c -> jfloat true x = Some t -> jnumber t ->
+    ParseFloat O t 32 = Some w -> f32_of_f64 w = x ->
+    column_ok c FAuto (VF32 0) (VF32 x) (VF32 x) (JNum t) t.
+  Proof.
+    intros Hc Hj Hn Hp Hw. unfold column_ok. repeat split; try assumption; try discriminate.
+    - cbn. now rewrite Hj.
+    - cbn. now apply jnumber_marshal.
+    - constructor; exact Hn.
+    - cbn [rv_of_jv import_scalar]. unfold cast_to. cbn [to_gval].
+      destruct (f32_read O t) as [R1 R2]. rewrite R2, R1, Hp, Hw. reflexivity.
+  Qed.
+
+  (* ---------- bool under numeric and timestamp: written 1 / 0, read back through ParseFloat ---------- *)
+  Definition bool_digit (b : bool) : str := if b then [49] else [48].
+
+  Lemma bool_digit_read b : H_parse_bool_digits O -> To O (VBool true) (VNum (bool_digit b)) = Ok (VBool b).
+  Proof.
+    intros [H0 H1]. destruct b; cbn [bool_digit]; cast_unfold_top; cast_unfold_4.
+    - rewrite H1. vm_compute. reflexivity.
+    - rewrite H0. vm_compute. reflexivity.
+  Qed.
+
+  Lemma bool_digit_number b : jnumber (bool_digit b).
+  Proof. apply is_json_number_iff. destruct b; reflexivity. Qed.
+
+  Lemma ok_numeric_bool c b : H_parse_bool_digits O -> ustr c ->
+    column_ok c FNumeric (VBool true) (VBool b) (VNum (bool_digit b)) (JNum (bool_digit b)) (bool_digit b).
+  Proof.
+    intros HP Hc. unfold column_ok. repeat split; try assumption; try discriminate; try (destruct b; reflexivity).
+    - constructor. apply bool_digit_number.
+    - cbn [rv_of_jv import_scalar to_gval]. unfold importFromNumeric. rewrite (bool_digit_read b HP). reflexivity.
+  Qed.
+
+  Lemma ok_timestamp_bool c b : H_parse_bool_digits O -> ustr c ->
+    column_ok c FTimestamp (VBool true) (VBool b) (VInt KInt64 (if b then 1 else 0)) (JNum (bool_digit b)) (bool_digit b).
+  Proof.
+    intros HP Hc. unfold column_ok. repeat split; try assumption; try discriminate; try (destruct b; reflexivity).
+    - constructor. apply bool_digit_number.
+    - cbn [rv_of_jv import_scalar to_gval]. unfold importFromTimestamp. rewrite (bool_digit_read b HP). reflexivity.
+  Qed.
+
+  (* ---------- time.Time: the read-back value is the time at one-second resolution ---------- *)
+  (* the bundle of facts of [lossless_column_upto] / [fixed_point_column_upto] *)
+  Definition column_ok_upto c f T v v' e leaf txt : Prop :=
+    ustr c /\ v <> VNil /\ v' <> VNil /\ format_eqb f FHidden = false
+    /\ To O T v = Ok v /\ To O T v' = Ok v'
+    /\ export_scalar O f (RS v) = Ok (RS e) /\ export_scalar O f (RS v') = Ok (RS e)
+    /\ marshal_gval encode_string jfloat jother e = Ok txt
+    /\ write_jv leaf = Some txt /\ jv_wf leaf
+    /\ rv_is_nil (rv_of_jv leaf) = false
+    /\ import_scalar O f T (rv_of_jv leaf) = Ok (RS v').
+
+  Lemma column_ok_is_upto c f T v e leaf txt : column_ok c f T v e leaf txt -> column_ok_upto c f T v v e leaf txt.
+  Proof. intros (H1 & H2 & H3 & H4 & H5 & H6 & H7 & H8 & H9 & H10). unfold column_ok_upto. tauto. Qed.
+
+  Lemma column_ok_of_upto c f T v e leaf txt : column_ok_upto c f T v v e leaf txt -> column_ok c f T v e leaf txt.
+  Proof. unfold column_ok_upto, column_ok. tauto. Qed.
+
+  Lemma column_ok_upto_lossless n c f T v v' e leaf txt : column_ok_upto c f T v v' e leaf txt ->
+    exists line,
+      bind (create_row O parse_top_rv (S (S (S n))) (tpl1 c f T) (RMap [(c, RS v)])) (marshal_row' (S (S (S n)))) = Ok line
+      /\ get_row O parse_top_rv (S (S (S n))) (tpl1 c f T) line = Ok (MkRow [(c, CVal (RS v') f T)] [c]).
+  Proof.
+    intros (H1 & H2 & H3 & H4 & H5 & H6 & H7 & H8 & H9 & H10 & H11 & H12 & H13).
+    eapply lossless_column_upto; eauto.
+  Qed.
+
+  Lemma column_ok_upto_fixed_point n c f T v v' e leaf txt : column_ok_upto c f T v v' e leaf txt ->
+    exists line,
+      bind (create_row O parse_top_rv (S (S (S n))) (tpl1 c f T) (RMap [(c, RS v)])) (marshal_row' (S (S (S n)))) = Ok line
+      /\ pipeline O encode_string parse_top_rv jfloat jother (S (S (S n))) (tpl1 c f T) (tpl1 c f T) line = Ok (line ++ [10]).
+  Proof.
+    intros (H1 & H2 & H3 & H4 & H5 & H6 & H7 & H8 & H9 & H10 & H11 & H12 & H13).
+    eapply fixed_point_column_upto with (v' := v'); eauto.
+  Qed.
+
+  (* characters json.Marshal copies unchanged into a string literal (HTML escaping on) *)
+  Definition plain_char (c : Z) : Prop := 32 <= c < 128 /\ c <> 34 /\ c <> 92 /\ c <> 60 /\ c <> 62 /\ c <> 38.
+
+  Lemma enc_body_plain f s : Forall plain_char s -> (length s <= f)%nat -> enc_body f s = s.
+  Proof.
+    revert s. induction f as [|f IH]; intros s Hs Hl.
+    - destruct s; [reflexivity | cbn in Hl; lia].
+    - destruct s as [|c r]; [reflexivity|]. inversion Hs as [|? ? Hc Hr]; subst. unfold plain_char in Hc.
+      cbn [enc_body enc_step].
+      destruct (Z.ltb_spec c 128); [|lia].
+      repeat match goal with |- context [?a =? ?b] => destruct (Z.eqb_spec a b); [lia|] end.
+      destruct (Z.ltb_spec c 32); [lia|]. cbn [orb app]. f_equal. apply IH; [exact Hr | cbn in Hl; lia].
+  Qed.
+
+  Lemma encode_string_plain s : Forall plain_char s -> encode_string s = [34] ++ s ++ [34].
+  Proof. intros Hs. unfold encode_string. rewrite enc_body_plain by auto. reflexivity. Qed.
+
+  Lemma digit_plain s : Forall digit_char s -> Forall plain_char s.
+  Proof. apply Forall_impl. unfold digit_char, plain_char. intros c Hc. lia. Qed.
+
+  Lemma rfc3339_text_plain y mo d hh mi ss frac zs :
+    civil_ok y mo d hh mi ss -> Forall digit_char frac -> zone_ok zs -> Forall plain_char (rfc3339_text y mo d hh mi ss frac zs).
+  Proof.
+    intros (Hy & (Hmo & Hd) & Hh & Hmi & Hs) Hf Hz. pose proof (days_in_le_31 mo y) as H31.
+    assert (P : forall c, In c [45; 84; 58; 90; 43; 46] -> plain_char c)
+      by (intros c Hc; cbn in Hc; unfold plain_char; lia).
+    unfold rfc3339_text. rewrite !Forall_app. repeat split;
+      try (apply digit_plain; first [apply digits4_digits | apply pad2_digits]; lia);
+      try (repeat constructor; apply P; cbn; tauto).
+    - destruct frac as [|d0 fr]; [constructor|]. cbn [frac_text]. constructor; [apply P; cbn; tauto | apply digit_plain, Hf].
+    - destruct zs as [|neg h m]; cbn [zone_text zone_ok] in *.
+      + repeat constructor; apply P; cbn; tauto.
+      + constructor; [destruct neg; apply P; cbn; tauto|]. rewrite !Forall_app. repeat split;
+          try (apply digit_plain, pad2_digits; lia). repeat constructor; apply P; cbn; tauto.
+  Qed.
+
+  Lemma fmt_rfc3339_plain t : no_wrap t -> year_ok t -> off_ok (toff t) -> Forall plain_char (fmt_rfc3339 t).
+  Proof.
+    intros Hw Hy Ho. destruct (fmt_rfc3339_text t Hw Hy Ho) as [Hc E]. rewrite E.
+    apply rfc3339_text_plain; [exact Hc | constructor | apply zone_of_off_ok; exact Ho].
+  Qed.
+
+  Lemma plain_ascii s : Forall plain_char s -> Forall (fun c => 0 <= c < 128) s.
+  Proof. apply Forall_impl. unfold plain_char. intros c Hc. lia. Qed.
+
+  Definition trunc_sec (t : gtime) : gtime := {| tsec := tsec t; tnsec := 0; toff := toff t |}.
+
+  Lemma trunc_sec_id t : tnsec t = 0 -> trunc_sec t = t.
+  Proof. destruct t as [a ns off]. cbn. intros ->. reflexivity. Qed.
+
+  Lemma ToTime_fmt t : no_wrap t -> year_ok t -> off_ok (toff t) ->
+    ToTime O (VStr (fmt_rfc3339 t)) = Ok (VTime (trunc_sec t)).
+  Proof. intros Hw Hy Ho. apply ToTime_of_fast. now apply parse_format_rfc3339. Qed.
+
+  Lemma ok_datetime_time c t0 t : ustr c -> no_wrap t -> year_ok t -> off_ok (toff t) ->
+    column_ok_upto c FDateTime (VTime t0) (VTime t) (VTime (trunc_sec t))
+                   (VStr (fmt_rfc3339 t)) (JStr (fmt_rfc3339 t)) (encode_string (fmt_rfc3339 t)).
+  Proof.
+    intros Hc Hw Hy Ho. unfold column_ok_upto. repeat split; try assumption; try discriminate.
+    - constructor. apply ascii_ustr, plain_ascii, fmt_rfc3339_plain; assumption.
+    - cbn [rv_of_jv import_scalar to_gval]. unfold importFromDateTime.
+      change (To O (VTime t0) (VStr (fmt_rfc3339 t))) with (ToTime O (VStr (fmt_rfc3339 t))).
+      rewrite ToTime_fmt by assumption. reflexivity.
+  Qed.
+
+  Lemma ok_string_time c t0 t : ustr c -> no_wrap t -> year_ok t -> off_ok (toff t) ->
+    column_ok_upto c FString (VTime t0) (VTime t) (VTime (trunc_sec t))
+                   (VStr (fmt_rfc3339 t)) (JStr (fmt_rfc3339 t)) (encode_string (fmt_rfc3339 t)).
+  Proof.
+    intros Hc Hw Hy Ho. unfold column_ok_upto. repeat split; try assumption; try discriminate.
+    - constructor. apply ascii_ustr, plain_ascii, fmt_rfc3339_plain; assumption.
+    - cbn [rv_of_jv import_scalar to_gval]. unfold importFromString.
+      change (To O (VTime t0) (VStr (fmt_rfc3339 t))) with (ToTime O (VStr (fmt_rfc3339 t))).
+      rewrite ToTime_fmt by assumption. reflexivity.
+  Qed.
+
+  (* under timestamp and numeric the text is the Unix second; it is read back in the local zone:
+     same instant (at one second), the offset is the reader's *)
+  Lemma ToTime_num_dec z : in_range KInt64 z -> ToTime O (VNum (dec z)) = Ok (VTime (time_Unix O z)).
+  Proof.
+    intros Hr. unfold in_range, imin, imax in Hr. cbn [isigned ibits isize] in Hr.
+    repeat match type of Hr with context [2 ^ ?n] => let v := eval compute in (2 ^ n) in change (2 ^ n) with v in Hr end.
+    assert (Ep : ParseInt (dec z) 0 64 = Some z).
+    { rewrite ParseInt_dec by lia. change (2 ^ (64 - 1)) with 9223372036854775808.
+      rewrite !(proj2 (Z.leb_le _ _)) by lia. reflexivity. }
+    cast_unfold_top. cast_unfold_4. rewrite Ep. reflexivity.
+  Qed.
+
+  Lemma ok_timestamp_time c t0 t : ustr c -> in_range KInt64 (tsec t) ->
+    column_ok_upto c FTimestamp (VTime t0) (VTime t) (VTime (time_Unix O (tsec t)))
+                   (VInt KInt64 (tsec t)) (JNum (dec (tsec t))) (dec (tsec t)).
+  Proof.
+    intros Hc Hr. unfold column_ok_upto. repeat split; try assumption; try discriminate.
+    - cbn. apply marshal_dec.
+    - constructor. apply jnumber_dec.
+    - cbn [rv_of_jv import_scalar to_gval]. unfold importFromTimestamp.
+      change (To O (VTime t0) (VNum (dec (tsec t)))) with (ToTime O (VNum (dec (tsec t)))).
+      rewrite ToTime_num_dec by assumption. reflexivity.
+  Qed.
+
+  Lemma ok_numeric_time c t0 t : ustr c -> in_range KInt64 (tsec t) ->
+    column_ok_upto c FNumeric (VTime t0) (VTime t) (VTime (time_Unix O (tsec t)))
+                   (VNum (dec (tsec t))) (JNum (dec (tsec t))) (dec (tsec t)).
+  Proof.
+    intros Hc Hr. unfold column_ok_upto. repeat split; try assumption; try discriminate.
+    - cbn. now rewrite marshal_dec.
+    - cbn. apply marshal_dec.
+    - constructor. apply jnumber_dec.
+    - cbn [rv_of_jv import_scalar to_gval]. unfold importFromNumeric.
+      change (To O (VTime t0) (VNum (dec (tsec t)))) with (ToTime O (VNum (dec (tsec t)))).
+      rewrite ToTime_num_dec by assumption. reflexivity.
+  Qed.
+
+  (* under auto the text is Time.MarshalJSON's (RFC 3339 with nanoseconds); for a whole second it is
+     the RFC 3339 text *)
+  Lemma time_marshal_whole t : no_wrap t -> year_ok t -> off_ok (toff t) -> tnsec t = 0 ->
+    time_marshal t = Some ([34] ++ fmt_rfc3339 t ++ [34]).
+  Proof.
+    intros Hw Hy [Ho _] Hn. unfold time_marshal. unfold year_ok in Hy.
+    destruct (Z.ltb_spec (cy (civil_of t)) 0); [lia|]. destruct (Z.ltb_spec 9999 (cy (civil_of t))); [lia|].
+    cbn [orb]. destruct (Z.leb_spec 86400 (Z.abs (toff t))); [lia|].
+    unfold fmt_rfc3339nano, fmt_rfc3339, fmt_frac. rewrite Hn. cbn [Z.eqb app]. reflexivity.
+  Qed.
+
+  Lemma ok_auto_time c t0 t : ustr c -> no_wrap t -> year_ok t -> off_ok (toff t) -> tnsec t = 0 ->
+    column_ok c FAuto (VTime t0) (VTime t) (VTime t) (JStr (fmt_rfc3339 t)) (encode_string (fmt_rfc3339 t)).
+  Proof.
+    intros Hc Hw Hy Ho Hn. pose proof (fmt_rfc3339_plain t Hw Hy Ho) as Hp.
+    unfold column_ok. repeat split; try assumption; try discriminate.
+    - cbn [marshal_gval]. rewrite time_marshal_whole by assumption. rewrite encode_string_plain by exact Hp. reflexivity.
+    - constructor. apply ascii_ustr, plain_ascii, Hp.
+    - cbn [rv_of_jv import_scalar]. unfold cast_to. cbn [to_gval].
+      change (To O (VTime t0) (VStr (fmt_rfc3339 t))) with (ToTime O (VStr (fmt_rfc3339 t))).
+      rewrite ToTime_fmt by assumption. rewrite trunc_sec_id by exact Hn. reflexivity.
+  Qed.
+
+  (* ---- sub-second digits under auto: Time.MarshalJSON writes the nanoseconds without trailing
+          zeros, the strict RFC 3339 parser reads every digit back ---- *)
+  Lemma trim_zeros_rev_ne c r : c <> 48 -> trim_zeros_rev (c :: r) = c :: r.
+  Proof.
+    intros Hne. destruct c as [|q|q]; try reflexivity.
+    do 6 (destruct q as [q|q|]; try reflexivity). contradiction Hne; reflexivity.
+  Qed.
+
+  Lemma trim_zeros_decomp l : exists k, l = repeat 48 k ++ trim_zeros_rev l.
+  Proof.
+    induction l as [|c r [k IH]]; [exists 0%nat; reflexivity|].
+    destruct (Z.eq_dec c 48) as [->|Hne].
+    - exists (S k). cbn [trim_zeros_rev repeat app]. f_equal. exact IH.
+    - exists 0%nat. rewrite trim_zeros_rev_ne by exact Hne. reflexivity.
+  Qed.
+
+  Lemma rev_repeat48 k : rev (repeat 48 k) = repeat 48 k.
+  Proof. induction k as [|k IH]; [reflexivity|]. cbn [repeat rev]. rewrite IH. symmetry. apply repeat_cons. Qed.
+
+  Lemma strip_decomp q : exists k, rev q = rev (trim_zeros_rev q) ++ repeat 48 k.
+  Proof.
+    destruct (trim_zeros_decomp q) as [k E]. exists k. rewrite E at 1. rewrite rev_app_distr, rev_repeat48. reflexivity.
+  Qed.
+
+  Lemma horner_app a b : horner (a ++ b) 0 = horner a 0 * 10 ^ Z.of_nat (length b) + horner b 0.
+  Proof. unfold horner. rewrite fold_left_app. exact (horner_acc b (horner a 0)). Qed.
+
+  Lemma horner_zeros k : horner (repeat 48 k) 0 = 0.
+  Proof. induction k as [|k IH]; [reflexivity|]. cbn [repeat]. rewrite horner_cons. exact IH. Qed.
+
+  Lemma repeat48_digits k : Forall digit_char (repeat 48 k).
+  Proof. induction k; cbn [repeat]; constructor; [unfold digit_char; lia | assumption]. Qed.
+
+  Lemma pad9_spec n : 0 <= n < 10 ^ 9 ->
+    Forall digit_char (pad_left 9 (dec_nat n)) /\ length (pad_left 9 (dec_nat n)) = 9%nat
+    /\ horner (pad_left 9 (dec_nat n)) 0 = n.
+  Proof.
+    intros Hn. destruct (dec_nat_spec n ltac:(lia)) as (Hall & Hh & Hnz & Hz).
+    assert (Hlen : (length (dec_nat n) <= 9)%nat).
+    { destruct (Z.eq_dec n 0) as [E|E]; [rewrite (Hz E); cbn; lia|].
+      destruct (Hnz ltac:(lia)) as (c & r & Er & Hc). rewrite Er in *.
+      apply Forall_cons_iff in Hall. destruct Hall as [Hdc Hr].
+      rewrite horner_cons, horner_acc in Hh. pose proof (horner_bound r Hr) as Hb. unfold digit_char in Hdc.
+      assert (Hp : 10 ^ Z.of_nat (length r) < 10 ^ 9).
+      { assert (0 < 10 ^ Z.of_nat (length r)) by (apply Z.pow_pos_nonneg; lia). nia. }
+      apply Z.pow_lt_mono_r_iff in Hp; [|lia|lia]. cbn [length]. lia. }
+    unfold pad_left. repeat split.
+    - apply Forall_app. split; [apply repeat48_digits | exact Hall].
+    - rewrite app_length, repeat_length. unfold byte in *. lia.
+    - rewrite horner_app, horner_zeros, Hh. lia.
+  Qed.
+
+  Definition frac_digits (ns : Z) : str := rev (trim_zeros_rev (rev (pad_left 9 (dec_nat ns)))).
+
+  Lemma frac_digits_spec ns : 0 < ns < 10 ^ 9 ->
+    Forall digit_char (frac_digits ns) /\ frac_digits ns <> []
+    /\ horner (frac_digits ns) 0 * 10 ^ 9 / 10 ^ Z.of_nat (length (frac_digits ns)) = ns.
+  Proof.
+    intros Hn. destruct (pad9_spec ns ltac:(lia)) as (Hall & Hlen & Hh).
+    unfold frac_digits. set (p := pad_left 9 (dec_nat ns)) in *.
+    destruct (strip_decomp (rev p)) as [k E]. rewrite rev_involutive in E.
+    set (f := rev (trim_zeros_rev (rev p))) in *.
+    assert (Hf : Forall digit_char f) by (rewrite E in Hall; apply Forall_app in Hall; tauto).
+    assert (Hl : (length f + k = 9)%nat) by (rewrite <- Hlen, E, app_length, repeat_length; reflexivity).
+    assert (Hv : horner f 0 * 10 ^ Z.of_nat k = ns)
+      by (rewrite <- Hh, E, horner_app, horner_zeros, repeat_length; lia).
+    split; [exact Hf|]. split.
+    - intros Ef. rewrite Ef in Hv. cbn in Hv. lia.
+    - replace 9 with (Z.of_nat k + Z.of_nat (length f)) by lia.
+      rewrite Z.pow_add_r by lia. rewrite Z.mul_assoc, Z.div_mul by (apply Z.pow_nonzero; lia). exact Hv.
+  Qed.
+
+  Lemma fmt_frac_digits ns : ns <> 0 -> fmt_frac ns = 46 :: frac_digits ns.
+  Proof. intros H. unfold fmt_frac. destruct (Z.eqb_spec ns 0); [contradiction | reflexivity]. Qed.
+
+  Lemma fmt_rfc3339nano_text t : no_wrap t -> year_ok t -> off_ok (toff t) -> 0 < tnsec t < 10 ^ 9 ->
+    let c := civil_of t in
+    civil_ok (cy c) (cmo c) (cd c) (chh c) (cmi c) (css c)
+    /\ fmt_rfc3339nano t = rfc3339_text (cy c) (cmo c) (cd c) (chh c) (cmi c) (css c) (frac_digits (tnsec t)) (zone_of_off (toff t)).
+  Proof.
+    intros Hw Hy Ho Hn c. destruct (civil_of_fields t Hw) as [Hv [Hh [Hmi [Hs _]]]]. fold c in Hv, Hh, Hmi, Hs.
+    unfold year_ok in Hy. fold c in Hy.
+    split; [unfold civil_ok; tauto|].
+    destruct (frac_digits_spec (tnsec t) Hn) as (_ & Hne & _).
+    unfold fmt_rfc3339nano, fmt_date_civil, rfc3339_text. fold c.
+    rewrite append_int_4 by exact Hy. rewrite fmt_zone_text, fmt_frac_digits by lia.
+    destruct (frac_digits (tnsec t)) as [|d0 fr] eqn:Ef; [contradiction Hne; reflexivity|]. cbn [frac_text].
+    rewrite <- !app_assoc. reflexivity.
+  Qed.
+
+  Lemma parse_fmt_rfc3339nano t : no_wrap t -> year_ok t -> off_ok (toff t) -> 0 < tnsec t < 10 ^ 9 ->
+    parse_rfc3339_fast (fmt_rfc3339nano t) = Some t.
+  Proof.
+    intros Hw Hy Ho Hn. destruct (fmt_rfc3339nano_text t Hw Hy Ho Hn) as [Hc E]. rewrite E.
+    destruct (zone_of_off_ok (toff t) Ho) as [Hz Eoff].
+    destruct (frac_digits_spec (tnsec t) Hn) as (Hf & _ & Hval).
+    rewrite format_parse by assumption.
+    destruct (civil_of_fields t Hw) as [_ [_ [_ [_ Eu]]]]. rewrite Eu, Eoff, Hval.
+    destruct t as [a ns off]. cbn [tsec tnsec toff]. f_equal. f_equal. lia.
+  Qed.
+
+  Lemma time_marshal_nanos t : year_ok t -> off_ok (toff t) ->
+    time_marshal t = Some ([34] ++ fmt_rfc3339nano t ++ [34]).
+  Proof.
+    intros Hy [Ho _]. unfold time_marshal. unfold year_ok in Hy.
+    destruct (Z.ltb_spec (cy (civil_of t)) 0); [lia|]. destruct (Z.ltb_spec 9999 (cy (civil_of t))); [lia|].
+    cbn [orb]. destruct (Z.leb_spec 86400 (Z.abs (toff t))); [lia|]. reflexivity.
+  Qed.
+
+  Lemma ok_auto_time_nanos c t0 t : ustr c -> no_wrap t -> year_ok t -> off_ok (toff t) -> 0 < tnsec t < 10 ^ 9 ->
+    column_ok c FAuto (VTime t0) (VTime t) (VTime t) (JStr (fmt_rfc3339nano t)) (encode_string (fmt_rfc3339nano t)).
+  Proof.
+    intros Hc Hw Hy Ho Hn.
+    assert (Hp : Forall plain_char (fmt_rfc3339nano t)).
+    { destruct (fmt_rfc3339nano_text t Hw Hy Ho Hn) as [Hcv E]. rewrite E.
+      apply rfc3339_text_plain; [exact Hcv | apply frac_digits_spec; exact Hn | apply zone_of_off_ok; exact Ho]. }
+    unfold column_ok. repeat split; try assumption; try discriminate.
+    - cbn [marshal_gval]. rewrite time_marshal_nanos by assumption. rewrite encode_string_plain by exact Hp. reflexivity.
+    - constructor. apply ascii_ustr, plain_ascii, Hp.
+    - cbn [rv_of_jv import_scalar]. unfold cast_to. cbn [to_gval].
+      change (To O (VTime t0) (VStr (fmt_rfc3339nano t))) with (ToTime O (VStr (fmt_rfc3339nano t))).
+      rewrite (ToTime_of_fast O _ t) by (now apply parse_fmt_rfc3339nano). reflexivity.
+  Qed.
+
+  (* whole-second times under datetime and string: lossless on the nose *)
+  Lemma ok_datetime_time_whole c t0 t : ustr c -> no_wrap t -> year_ok t -> off_ok (toff t) -> tnsec t = 0 ->
+    column_ok c FDateTime (VTime t0) (VTime t) (VStr (fmt_rfc3339 t)) (JStr (fmt_rfc3339 t)) (encode_string (fmt_rfc3339 t)).
+  Proof.
+    intros Hc Hw Hy Ho Hn. apply column_ok_of_upto. rewrite <- (trunc_sec_id t Hn) at 2. now apply ok_datetime_time.
+  Qed.
+
+  Lemma ok_string_time_whole c t0 t : ustr c -> no_wrap t -> year_ok t -> off_ok (toff t) -> tnsec t = 0 ->
+    column_ok c FString (VTime t0) (VTime t) (VStr (fmt_rfc3339 t)) (JStr (fmt_rfc3339 t)) (encode_string (fmt_rfc3339 t)).
+  Proof.
+    intros Hc Hw Hy Ho Hn. apply column_ok_of_upto. rewrite <- (trunc_sec_id t Hn) at 2. now apply ok_string_time.
+  Qed.
+
+  (* ---------- time.Time under binary: the 8 little-endian bytes of the Unix second ---------- *)
+  (* the reader first tries the bytes as text (RFC 3339, then a decimal integer): for |sec| < 2^55 the
+     last byte is 0x00 or 0xFF, which no integer syntax accepts; that Go's lenient layout parser
+     rejects the 8 bytes is a premise (o_time_parse_slow is an oracle) *)
+  Lemma digits_loop_bad c base0 base s : In c s -> digit_val c = None -> c <> c_us ->
+    forall n us, digits_loop base0 base s n us = None.
+  Proof.
+    intros Hin Hd Hu. induction s as [|c' s' IH]; [contradiction Hin|]. intros n us. cbn [digits_loop].
+    destruct Hin as [->|Hin].
+    - destruct (Z.eqb_spec c c_us); [contradiction|]. cbn [andb]. rewrite Hd. reflexivity.
+    - destruct ((c' =? c_us) && base0); [apply IH; exact Hin|].
+      destruct (digit_val c') as [d|]; [|reflexivity]. destruct (base <=? d); [reflexivity | apply IH; exact Hin].
+  Qed.
+
+  Lemma In_skipn {A} (x : A) k l : In x (skipn k l) -> In x l.
+  Proof.
+    revert l. induction k as [|k IH]; intros l H; [exact H|]. destruct l as [|y l]; [exact H|]. right. apply IH. exact H.
+  Qed.
+
+  Lemma ParseUint_bad s c : In c (skipn 2 s) -> digit_val c = None -> c <> c_us -> ParseUint s 0 64 = None.
+  Proof.
+    intros Hin Hd Hu. destruct s as [|c0 [|c1 r1]]; try contradiction Hin. cbn [skipn] in Hin.
+    assert (H0 : In c (c1 :: r1)) by (right; exact Hin).
+    assert (H1 : In c (c0 :: c1 :: r1)) by (right; exact H0).
+    unfold ParseUint. change (0 =? 0) with true. cbv iota.
+    destruct (c0 =? 48);
+      repeat match goal with |- context [if ?b && ?b' then _ else _] => destruct (b && b') end;
+      cbn [negb andb orb Z.eqb Z.ltb Z.compare Pos.compare Pos.compare_cont];
+      try (rewrite (digits_loop_bad c) by assumption); reflexivity.
+  Qed.
+
+  Lemma ParseInt_bad s c : In c (skipn 3 s) -> digit_val c = None -> c <> c_us -> ParseInt s 0 64 = None.
+  Proof.
+    intros Hin Hd Hu. destruct s as [|c0 [|c1 [|c2 r2]]]; try contradiction Hin. cbn [skipn] in Hin.
+    unfold ParseInt.
+    destruct (c0 =? c_plus); [|destruct (c0 =? c_minus)]; cbv iota;
+      (rewrite (ParseUint_bad _ c); [reflexivity | cbn [skipn]; auto using in_cons | assumption | assumption]).
+  Qed.
+
+  Lemma top_byte_arith z : - 36028797018963968 <= z < 36028797018963968 ->
+    let x := z mod 18446744073709551616 in
+    x / 256 / 256 / 256 / 256 / 256 / 256 / 256 mod 256 = 0 \/ x / 256 / 256 / 256 / 256 / 256 / 256 / 256 mod 256 = 255.
+  Proof.
+    intros Hz x.
+    assert (Hx : 0 <= x < 18446744073709551616) by (apply Z.mod_pos_bound; lia).
+    assert (Ex : x = z \/ x = z + 18446744073709551616).
+    { subst x. destruct (Z_lt_le_dec z 0).
+      - right. symmetry. apply Z.mod_unique with (q := -1); lia.
+      - left. apply Z.mod_small. lia. }
+    clearbody x.
+    rewrite !Z.div_div by lia. cbn [Z.mul Pos.mul Pos.add Pos.succ].
+    assert (E : x / 72057594037927936 = 0 \/ x / 72057594037927936 = 255).
+    { destruct Ex as [->| ->].
+      - left. apply Z.div_small. lia.
+      - right. symmetry. apply Z.div_unique with (r := z + 18446744073709551616 - 255 * 72057594037927936); lia. }
+    destruct E as [->| ->]; [left|right]; reflexivity.
+  Qed.
+
+  Lemma top_byte z : - 2 ^ 55 <= z < 2 ^ 55 ->
+    exists b0 b1 b2 b3 b4 b5 b6 b7, int_le_bytes KInt64 z = [b0; b1; b2; b3; b4; b5; b6; b7] /\ (b7 = 0 \/ b7 = 255).
+  Proof.
+    intros Hz. unfold int_le_bytes. change (size_nat KInt64) with 8%nat. change (2 ^ ibits KInt64) with 18446744073709551616.
+    change (2 ^ 55) with 36028797018963968 in Hz.
+    cbn [le_bytes]. do 8 eexists. split; [reflexivity|]. exact (top_byte_arith z Hz).
+  Qed.
+
+  Lemma ParseInt_le_bytes z : - 2 ^ 55 <= z < 2 ^ 55 -> ParseInt (int_le_bytes KInt64 z) 0 64 = None.
+  Proof.
+    intros Hz. destruct (top_byte z Hz) as (b0 & b1 & b2 & b3 & b4 & b5 & b6 & b7 & -> & Hb).
+    apply (ParseInt_bad _ b7); [cbn [skipn]; cbn; tauto | destruct Hb as [->| ->]; reflexivity
+                               | destruct Hb as [->| ->]; discriminate].
+  Qed.
+
+  Lemma in_range_i64_55 z : - 2 ^ 55 <= z < 2 ^ 55 -> in_range KInt64 z.
+  Proof.
+    intros Hz. change (2 ^ 55) with 36028797018963968 in Hz.
+    unfold in_range, imin, imax. cbn [isigned ibits isize].
+    repeat match goal with |- context [2 ^ ?n] => let v := eval compute in (2 ^ n) in change (2 ^ n) with v end. lia.
+  Qed.
+
+  Lemma ToTime_le_bytes z : - 2 ^ 55 <= z < 2 ^ 55 -> o_time_parse_slow O (int_le_bytes KInt64 z) = None ->
+    ToTime O (VBytes (mkbytes (int_le_bytes KInt64 z))) = Ok (VTime (time_Unix O z)).
+  Proof.
+    intros Hz Hslow.
+    assert (Hr : in_range KInt64 z) by (apply in_range_i64_55; exact Hz).
+    set (l := int_le_bytes KInt64 z) in *.
+    change (ToTime O (VBytes (mkbytes l))) with
+      (match ToTime_4 O (VStr l) with
+       | Ok v_t => Ok v_t
+       | Err _ => match ToInt64 O (VBytes (mkbytes l)) with
+                  | Ok v_i64 => ToTime_4 O v_i64 | Err _ => Err ErrUnableToCastToTime | Panic => Panic | Fuel => Fuel end
+       | Panic => Panic | Fuel => Fuel end).
+    change (ToTime_4 O (VStr l)) with
+      (match time_Parse O LRFC3339 l with
+       | Some v_t => Ok (VTime v_t)
+       | None => match ToInt64 O (VStr l) with
+                 | Ok v_i64 => ToTime_3 O v_i64 | Err _ => Err ErrUnableToCastToTime | Panic => Panic | Fuel => Fuel end
+       end).
+    assert (Ef : parse_rfc3339_fast l = None).
+    { unfold parse_rfc3339_fast. subst l. unfold int_le_bytes. rewrite le_bytes_length. reflexivity. }
+    unfold time_Parse. rewrite Ef, Hslow.
+    change (ToInt64 O (VStr l)) with
+      (match ParseInt l 0 64 with Some v_v => Ok (VInt KInt64 v_v) | None => Err ErrUnableToCastToInt64 end).
+    subst l. rewrite (ParseInt_le_bytes z Hz).
+    pose proof (decode_encode O KInt64 z Hr) as E. rewrite (encode_le O KInt64 z Hr) in E. cbn [bind] in E.
+    change (To O (sample KInt64) ?b) with (ToInt64 O b) in E. fold (int_le_bytes KInt64 z) in E. rewrite E.
+    reflexivity.
+  Qed.
+
+  Lemma ok_binary_time c t0 t : ustr c -> - 2 ^ 55 <= tsec t < 2 ^ 55 ->
+    o_time_parse_slow O (int_le_bytes KInt64 (tsec t)) = None ->
+    column_ok_upto c FBinary (VTime t0) (VTime t) (VTime (time_Unix O (tsec t)))
+                   (VStr (base64_encode (int_le_bytes KInt64 (tsec t))))
+                   (JStr (base64_encode (int_le_bytes KInt64 (tsec t))))
+                   (encode_string (base64_encode (int_le_bytes KInt64 (tsec t)))).
+  Proof.
+    intros Hc Hz Hslow.
+    assert (Hr : in_range KInt64 (tsec t)) by (apply in_range_i64_55; exact Hz).
+    assert (Hl : bytes_ok (int_le_bytes KInt64 (tsec t))) by apply le_bytes_ok.
+    unfold column_ok_upto. repeat split; try assumption; try discriminate.
+    - constructor. apply ascii_ustr, base64_encode_ascii, Hl.
+    - cbn [rv_of_jv import_scalar to_gval]. unfold importFromBinary.
+      change (ToString O (VStr ?s)) with (Ok (VStr s) : res gval).
+      cbn [as_string]. rewrite (base64_decode_encode _ Hl). cbn [option_map].
+      change (To O (VTime t0) ?b) with (ToTime O b). rewrite ToTime_le_bytes by assumption. reflexivity.
+  Qed.
+
+  (* the lossless pairings proved: (format, raw type, value) with the witnesses of the facts of
+     [column_ok] (exported value, JSON value, its text). The premises of a constructor are the domain
+     of the pairing and, for floats and for bool written as 0 / 1, the named hypotheses about
+     strconv / json.Marshal (GoHyps.v, GoHypsJson.v) the instance rests on. *)
   Inductive proved_pairing : format -> gval -> gval -> gval -> jv -> str -> Prop :=
+  (* the ten integer kinds (byte = uint8, rune = int32) *)
   | pp_numeric_int k z : in_range k z -> proved_pairing FNumeric (sample k) (VInt k z) (VNum (dec z)) (JNum (dec z)) (dec z)
   | pp_string_int k z : in_range k z -> proved_pairing FString (sample k) (VInt k z) (VStr (dec z)) (JStr (dec z)) (encode_string (dec z))
   | pp_auto_int k z : in_range k z -> proved_pairing FAuto (sample k) (VInt k z) (VInt k z) (JNum (dec z)) (dec z)
-  | pp_boolean_bool b : proved_pairing FBoolean (VBool true) (VBool b) (VBool b) (JBool b) (if b then s_true else s_false).
+  | pp_timestamp_int k z : in_range k z -> in_range KInt64 z ->
+      proved_pairing FTimestamp (sample k) (VInt k z) (VInt KInt64 z) (JNum (dec z)) (dec z)
+  | pp_binary_int k z : in_range k z ->
+      proved_pairing FBinary (sample k) (VInt k z) (VStr (base64_encode (int_le_bytes k z)))
+                     (JStr (base64_encode (int_le_bytes k z))) (encode_string (base64_encode (int_le_bytes k z)))
+  (* bool *)
+  | pp_boolean_bool b : proved_pairing FBoolean (VBool true) (VBool b) (VBool b) (JBool b) (if b then s_true else s_false)
+  | pp_string_bool b : proved_pairing FString (VBool true) (VBool b) (VStr (FormatBool b)) (JStr (FormatBool b)) (encode_string (FormatBool b))
+  | pp_auto_bool b : proved_pairing FAuto (VBool true) (VBool b) (VBool b) (JBool b) (if b then s_true else s_false)
+  | pp_binary_bool b :
+      proved_pairing FBinary (VBool true) (VBool b) (VStr (base64_encode [if b then 1 else 0]))
+                     (JStr (base64_encode [if b then 1 else 0])) (encode_string (base64_encode [if b then 1 else 0]))
+  | pp_numeric_bool b : H_parse_bool_digits O ->
+      proved_pairing FNumeric (VBool true) (VBool b) (VNum (bool_digit b)) (JNum (bool_digit b)) (bool_digit b)
+  | pp_timestamp_bool b : H_parse_bool_digits O ->
+      proved_pairing FTimestamp (VBool true) (VBool b) (VInt KInt64 (if b then 1 else 0)) (JNum (bool_digit b)) (bool_digit b)
+  (* floats: every bit pattern under binary; finite values under numeric / string (strconv's digits)
+     and auto (json.Marshal's digits) *)
+  | pp_binary_f64 x : 0 <= x < 2 ^ 64 ->
+      proved_pairing FBinary (VF64 0) (VF64 x) (VStr (base64_encode (le_bytes 8 x)))
+                     (JStr (base64_encode (le_bytes 8 x))) (encode_string (base64_encode (le_bytes 8 x)))
+  | pp_binary_f32 x : 0 <= x < 2 ^ 32 ->
+      proved_pairing FBinary (VF32 0) (VF32 x) (VStr (base64_encode (le_bytes 4 x)))
+                     (JStr (base64_encode (le_bytes 4 x))) (encode_string (base64_encode (le_bytes 4 x)))
+  | pp_numeric_f64 x : H_float_rt O -> H_float_syn O -> 0 <= x < 2 ^ 64 -> f64_class x = FFin ->
+      proved_pairing FNumeric (VF64 0) (VF64 x) (VNum (f64_txt x)) (JNum (f64_txt x)) (f64_txt x)
+  | pp_string_f64 x : H_float_rt O -> H_float_syn O -> 0 <= x < 2 ^ 64 -> f64_class x = FFin ->
+      proved_pairing FString (VF64 0) (VF64 x) (VStr (f64_txt x)) (JStr (f64_txt x)) (encode_string (f64_txt x))
+  | pp_numeric_f32 x : H_float_rt O -> H_float_syn O -> H_f32_embed -> 0 <= x < 2 ^ 32 -> f32_class x = FFin ->
+      proved_pairing FNumeric (VF32 0) (VF32 x) (VNum (f32_txt x)) (JNum (f32_txt x)) (f32_txt x)
+  | pp_string_f32 x : H_float_rt O -> H_float_syn O -> H_f32_embed -> 0 <= x < 2 ^ 32 -> f32_class x = FFin ->
+      proved_pairing FString (VF32 0) (VF32 x) (VStr (f32_txt x)) (JStr (f32_txt x)) (encode_string (f32_txt x))
+  | pp_auto_f64 x t : jfloat false x = Some t -> jnumber t -> ParseFloat O t 64 = Some x ->
+      proved_pairing FAuto (VF64 0) (VF64 x) (VF64 x) (JNum t) t
+  | pp_auto_f32 x t w : jfloat true x = Some t -> jnumber t -> ParseFloat O t 32 = Some w -> f32_of_f64 w = x ->
+      proved_pairing FAuto (VF32 0) (VF32 x) (VF32 x) (JNum t) t
+  (* string (valid UTF-8; any bytes under binary), json.Number (a JSON number literal; valid UTF-8
+     under string; any bytes under binary), []byte (non-nil, any bytes) *)
+  | pp_string_string t0 s : ustr s -> proved_pairing FString (VStr t0) (VStr s) (VStr s) (JStr s) (encode_string s)
+  | pp_auto_string t0 s : ustr s -> proved_pairing FAuto (VStr t0) (VStr s) (VStr s) (JStr s) (encode_string s)
+  | pp_binary_string t0 s : bytes_ok s ->
+      proved_pairing FBinary (VStr t0) (VStr s) (VStr (base64_encode s)) (JStr (base64_encode s)) (encode_string (base64_encode s))
+  | pp_numeric_number t0 lit : jnumber lit -> proved_pairing FNumeric (VNum t0) (VNum lit) (VNum lit) (JNum lit) lit
+  | pp_auto_number t0 lit : jnumber lit -> proved_pairing FAuto (VNum t0) (VNum lit) (VNum lit) (JNum lit) lit
+  | pp_string_number t0 s : ustr s -> proved_pairing FString (VNum t0) (VNum s) (VStr s) (JStr s) (encode_string s)
+  | pp_binary_number t0 s : bytes_ok s ->
+      proved_pairing FBinary (VNum t0) (VNum s) (VStr (base64_encode s)) (JStr (base64_encode s)) (encode_string (base64_encode s))
+  | pp_binary_bytes b0 s : bytes_ok s ->
+      proved_pairing FBinary (VBytes b0) (VBytes (mkbytes s)) (VStr (base64_encode s)) (JStr (base64_encode s)) (encode_string (base64_encode s))
+  (* time.Time holding a whole second (years 0..9999 in its own zone, whole-minute offset) *)
+  | pp_datetime_time t0 t : no_wrap t -> year_ok t -> off_ok (toff t) -> tnsec t = 0 ->
+      proved_pairing FDateTime (VTime t0) (VTime t) (VStr (fmt_rfc3339 t)) (JStr (fmt_rfc3339 t)) (encode_string (fmt_rfc3339 t))
+  | pp_string_time t0 t : no_wrap t -> year_ok t -> off_ok (toff t) -> tnsec t = 0 ->
+      proved_pairing FString (VTime t0) (VTime t) (VStr (fmt_rfc3339 t)) (JStr (fmt_rfc3339 t)) (encode_string (fmt_rfc3339 t))
+  | pp_auto_time t0 t : no_wrap t -> year_ok t -> off_ok (toff t) -> tnsec t = 0 ->
+      proved_pairing FAuto (VTime t0) (VTime t) (VTime t) (JStr (fmt_rfc3339 t)) (encode_string (fmt_rfc3339 t))
+  (* ... and under auto with its nanoseconds (the digits survive) *)
+  | pp_auto_time_nanos t0 t : no_wrap t -> year_ok t -> off_ok (toff t) -> 0 < tnsec t < 10 ^ 9 ->
+      proved_pairing FAuto (VTime t0) (VTime t) (VTime t) (JStr (fmt_rfc3339nano t)) (encode_string (fmt_rfc3339nano t)).
 
   Lemma proved_pairing_ok c f T v e leaf txt : ustr c -> proved_pairing f T v e leaf txt -> column_ok c f T v e leaf txt.
   Proof.
-    intros Hc H. destruct H; [now apply ok_numeric_int | now apply ok_string_int | now apply ok_auto_int | now apply ok_boolean_bool].
+    intros Hc H. destruct H;
+      first [ now apply ok_numeric_int | now apply ok_string_int | now apply ok_auto_int | now apply ok_timestamp_int
+            | now apply ok_binary_int | now apply ok_boolean_bool | now apply ok_string_bool | now apply ok_auto_bool
+            | now apply ok_binary_bool | now apply ok_numeric_bool | now apply ok_timestamp_bool
+            | now apply ok_binary_f64 | now apply ok_binary_f32 | now apply ok_numeric_f64 | now apply ok_string_f64
+            | now apply ok_numeric_f32 | now apply ok_string_f32 | now apply ok_auto_f64 | now apply (ok_auto_f32 c x t w)
+            | now apply ok_string_string | now apply ok_auto_string | now apply ok_binary_string
+            | now apply ok_numeric_number | now apply ok_auto_number | now apply ok_string_number | now apply ok_binary_number
+            | now apply ok_binary_bytes | now apply ok_datetime_time_whole | now apply ok_string_time_whole
+            | now apply ok_auto_time | now apply ok_auto_time_nanos ].
   Qed.
 
   Theorem lossless_proved n c f T v e leaf txt : ustr c -> proved_pairing f T v e leaf txt ->
@@ -238,4 +1108,90 @@ Section Lossless.
       bind (create_row O parse_top_rv (S (S (S n))) (tpl1 c f T) (RMap [(c, RS v)])) (marshal_row' (S (S (S n)))) = Ok line
       /\ pipeline O encode_string parse_top_rv jfloat jother (S (S (S n))) (tpl1 c f T) (tpl1 c f T) line = Ok (line ++ [10]).
   Proof. intros Hc H. apply column_ok_fixed_point with (e := e) (leaf := leaf) (txt := txt). now apply proved_pairing_ok. Qed.
+
+  (* time.Time with any nanoseconds: the value read back, [v'], is the time at one-second resolution —
+     same instant and same offset under datetime / string, same instant in the reader's local zone
+     under timestamp / numeric / binary (the text is the Unix second, resp. its 8 bytes) *)
+  Inductive proved_pairing_upto : format -> gval -> gval -> gval -> gval -> jv -> str -> Prop :=
+  | ppu_exact f T v e leaf txt : proved_pairing f T v e leaf txt -> proved_pairing_upto f T v v e leaf txt
+  | ppu_datetime_time t0 t : no_wrap t -> year_ok t -> off_ok (toff t) ->
+      proved_pairing_upto FDateTime (VTime t0) (VTime t) (VTime (trunc_sec t))
+                          (VStr (fmt_rfc3339 t)) (JStr (fmt_rfc3339 t)) (encode_string (fmt_rfc3339 t))
+  | ppu_string_time t0 t : no_wrap t -> year_ok t -> off_ok (toff t) ->
+      proved_pairing_upto FString (VTime t0) (VTime t) (VTime (trunc_sec t))
+                          (VStr (fmt_rfc3339 t)) (JStr (fmt_rfc3339 t)) (encode_string (fmt_rfc3339 t))
+  | ppu_timestamp_time t0 t : in_range KInt64 (tsec t) ->
+      proved_pairing_upto FTimestamp (VTime t0) (VTime t) (VTime (time_Unix O (tsec t)))
+                          (VInt KInt64 (tsec t)) (JNum (dec (tsec t))) (dec (tsec t))
+  | ppu_numeric_time t0 t : in_range KInt64 (tsec t) ->
+      proved_pairing_upto FNumeric (VTime t0) (VTime t) (VTime (time_Unix O (tsec t)))
+                          (VNum (dec (tsec t))) (JNum (dec (tsec t))) (dec (tsec t))
+  | ppu_binary_time t0 t : - 2 ^ 55 <= tsec t < 2 ^ 55 -> o_time_parse_slow O (int_le_bytes KInt64 (tsec t)) = None ->
+      proved_pairing_upto FBinary (VTime t0) (VTime t) (VTime (time_Unix O (tsec t)))
+                          (VStr (base64_encode (int_le_bytes KInt64 (tsec t))))
+                          (JStr (base64_encode (int_le_bytes KInt64 (tsec t))))
+                          (encode_string (base64_encode (int_le_bytes KInt64 (tsec t)))).
+
+  Lemma proved_pairing_upto_ok c f T v v' e leaf txt : ustr c -> proved_pairing_upto f T v v' e leaf txt ->
+    column_ok_upto c f T v v' e leaf txt.
+  Proof.
+    intros Hc H. destruct H as [f T v e leaf txt H | | | | |].
+    - apply column_ok_is_upto. now apply proved_pairing_ok.
+    - now apply ok_datetime_time.
+    - now apply ok_string_time.
+    - now apply ok_timestamp_time.
+    - now apply ok_numeric_time.
+    - now apply ok_binary_time.
+  Qed.
+
+  (* what "up to" means: the value read back is the value itself, or the same instant with zero
+     nanoseconds (and the same offset when the text carries one) *)
+  Definition same_second (f : format) (v v' : gval) : Prop :=
+    v' = v
+    \/ exists t t', v = VTime t /\ v' = VTime t' /\ tsec t' = tsec t /\ tnsec t' = 0
+                    /\ (f = FDateTime \/ f = FString -> toff t' = toff t).
+
+  Lemma proved_pairing_upto_same_second f T v v' e leaf txt :
+    proved_pairing_upto f T v v' e leaf txt -> same_second f v v'.
+  Proof.
+    intros H. destruct H as [f T v e leaf txt H | t0 t | t0 t | t0 t | t0 t | t0 t]; [left; reflexivity | | | | |];
+      right; exists t; eexists; (split; [reflexivity|]); (split; [reflexivity|]); cbn [tsec tnsec toff trunc_sec time_Unix];
+      repeat split; try reflexivity; intros [E|E]; discriminate E.
+  Qed.
+
+  Theorem lossless_proved_upto n c f T v v' e leaf txt : ustr c -> proved_pairing_upto f T v v' e leaf txt ->
+    exists line,
+      bind (create_row O parse_top_rv (S (S (S n))) (tpl1 c f T) (RMap [(c, RS v)])) (marshal_row' (S (S (S n)))) = Ok line
+      /\ get_row O parse_top_rv (S (S (S n))) (tpl1 c f T) line = Ok (MkRow [(c, CVal (RS v') f T)] [c]).
+  Proof. intros Hc H. apply column_ok_upto_lossless with (e := e) (leaf := leaf) (txt := txt). now apply proved_pairing_upto_ok. Qed.
+
+  Theorem lossless_proved_upto_same_second n c f T v v' e leaf txt : ustr c -> proved_pairing_upto f T v v' e leaf txt ->
+    same_second f v v'
+    /\ exists line,
+      bind (create_row O parse_top_rv (S (S (S n))) (tpl1 c f T) (RMap [(c, RS v)])) (marshal_row' (S (S (S n)))) = Ok line
+      /\ get_row O parse_top_rv (S (S (S n))) (tpl1 c f T) line = Ok (MkRow [(c, CVal (RS v') f T)] [c]).
+  Proof.
+    intros Hc H. split; [exact (proved_pairing_upto_same_second f T v v' e leaf txt H) | now apply (lossless_proved_upto n c f T v v' e leaf txt)].
+  Qed.
+
+  Theorem fixed_point_proved_upto n c f T v v' e leaf txt : ustr c -> proved_pairing_upto f T v v' e leaf txt ->
+    exists line,
+      bind (create_row O parse_top_rv (S (S (S n))) (tpl1 c f T) (RMap [(c, RS v)])) (marshal_row' (S (S (S n)))) = Ok line
+      /\ pipeline O encode_string parse_top_rv jfloat jother (S (S (S n))) (tpl1 c f T) (tpl1 c f T) line = Ok (line ++ [10]).
+  Proof.
+    intros Hc H. apply column_ok_upto_fixed_point with (v' := v') (e := e) (leaf := leaf) (txt := txt).
+    now apply proved_pairing_upto_ok.
+  Qed.
+
+  (* the named hypothesis H_jfloat_rt gives the premises of pp_auto_f64 / pp_auto_f32 for every finite float *)
+  Lemma auto_f64_pairing x : H_jfloat_rt O jfloat -> 0 <= x < 2 ^ 64 -> f64_class x = FFin ->
+    exists t, proved_pairing FAuto (VF64 0) (VF64 x) (VF64 x) (JNum t) t.
+  Proof. intros [H _] Hx Hc. destruct (H x Hx Hc) as (t & H1 & H2 & H3). exists t. now apply pp_auto_f64. Qed.
+
+  Lemma auto_f32_pairing x : H_jfloat_rt O jfloat -> H_f32_embed -> 0 <= x < 2 ^ 32 -> f32_class x = FFin ->
+    exists t, proved_pairing FAuto (VF32 0) (VF32 x) (VF32 x) (JNum t) t.
+  Proof.
+    intros [_ H] Hemb Hx Hc. destruct (H x Hx Hc) as (t & H1 & H2 & H3). exists t.
+    apply pp_auto_f32 with (w := f64_of_f32 x); auto.
+  Qed.
 End Lossless.
